@@ -150,6 +150,9 @@ pub enum Exp {
     Is(Val),
     /// Any of these values.
     Either(Vec<Val>),
+    /// Compared only when the call was recorded at all (observation channels
+    /// that depend on something outside the property, e.g. a Debug format).
+    IfPresent(Val),
     /// The key must be present; its value is not constrained.
     Any,
     /// Every key that starts with this entry's key is unconstrained (latitude
@@ -175,6 +178,9 @@ impl Expected {
     }
     pub fn panic(&mut self, key: impl Into<String>) {
         self.is(key, Val::Panic);
+    }
+    pub fn if_present(&mut self, key: impl Into<String>, v: Val) {
+        self.lines.push((key.into(), Exp::IfPresent(v)));
     }
     pub fn any(&mut self, key: impl Into<String>) {
         self.lines.push((key.into(), Exp::Any));
@@ -206,10 +212,11 @@ impl Expected {
                 continue;
             }
             match amap.get(k.as_str()) {
+                None if matches!(e, Exp::IfPresent(_)) => {}
                 None => out.push(format!("{k}: expected {e:?}, call not recorded")),
                 Some(a) => {
                     let ok = match e {
-                        Exp::Is(v) => *a == v,
+                        Exp::Is(v) | Exp::IfPresent(v) => *a == v,
                         Exp::Either(vs) => vs.iter().any(|v| *a == v),
                         Exp::Any => true,
                         Exp::Free => true,
